@@ -25,10 +25,6 @@
 
 using namespace vh;
 
-// model behaviour expected from the library: 0 = unchanged tree (MESSAGE-INTEGRITY verified only when present),
-// 1 = with /verif/fixes/C15-require-mi.diff applied.  Auto-detected once at start-up by a probe (see detectFix()).
-static int gFix = 0;
-
 static const char *LOOP = "127.0.0.1";
 static const quint32 MAGIC = 0x2112A442;
 
@@ -146,7 +142,7 @@ struct Agent {
     QStringList warns, ps, sel, otherLogs;
     int sig = 0;
     QList<QByteArray> app;
-    int markersSeen = 0;
+    long long markersSeen = 0;   // highest marker number that came back
     long long logCount = 0;
     std::function<int(quint16)> portToId = idOfPort;
 
@@ -160,7 +156,7 @@ struct Agent {
         comp = conn->component(component);
         QObject::connect(comp, &QXmppIceComponent::connected, [this]() { sig++; });
         QObject::connect(comp, &QXmppIceComponent::datagramReceived, [this](const QByteArray &b) {
-            if (b.startsWith("\xffMK")) markersSeen++; else app << b;
+            if (b.startsWith("\xffMK")) markersSeen = std::max(markersSeen, b.mid(3).toLongLong()); else app << b;
         });
         if (!conn->bind(addrs)) { fprintf(stderr, "bind failed\n"); exit(3); }
         for (const auto &c : comp->localCandidates()) ports << c.port();
@@ -242,10 +238,16 @@ struct Victim {
         int idle = 0;
         auto barrier = [&]() {
             markerNo++;
-            const int want = ag.markersSeen + 1;
+            const long long want = markerNo;
             gMarker->writeDatagram(QByteArray("\xffMK") + QByteArray::number(markerNo), QHostAddress(LOOP), ag.port());
             QElapsedTimer el; el.start();
-            while (ag.markersSeen < want && el.elapsed() < 2000) { pump(1); if (ag.markersSeen < want) QThread::usleep(50); }
+            qint64 resendAt = 3000;
+            // generous: only a lost marker ever waits this long (a loaded machine just processes the events later)
+            while (ag.markersSeen < want && el.elapsed() < 30000) {
+                pump(1);
+                if (ag.markersSeen < want) QThread::usleep(50);
+                if (ag.markersSeen < want && el.elapsed() > resendAt) { gMarker->writeDatagram(QByteArray("\xffMK") + QByteArray::number(markerNo), QHostAddress(LOOP), ag.port()); resendAt += 3000; stat("marker_resent"); }
+            }
             if (ag.markersSeen < want) { printf("I marker lost after %s\n", history.c_str()); fflush(stdout); stat("marker_lost"); }
         };
         barrier();
@@ -402,7 +404,7 @@ struct Victim {
     //  (a) an authentic request/response with one bit flipped anywhere  → must cause no connectivity reaction at all
     //      (header/attributes are covered by the HMAC, the length/cookie make it a non-STUN datagram, the trailer is MI/FINGERPRINT);
     //  (b) a STUN-shaped datagram with random attribute bytes, (c) random bytes → no reaction unless it is a Binding message
-    //      without MESSAGE-INTEGRITY (the known finding).
+    //      without MESSAGE-INTEGRITY (the defect fixed by repo commit f41aa68).
     void fuzzTail(int n)
     {
         for (int i = 0; i < n; i++) {
@@ -474,7 +476,7 @@ static void runScenario(const Scenario &sc, Rng &rng, int fuzz = 0)
 {
     drainAll();
     Victim v(sc.ctl, sc.comp, rng);
-    corr("reset ctl=" + std::string(sc.ctl ? "1" : "0") + " comp=" + std::to_string(sc.comp) + " fix=" + std::to_string(gFix), "ok");
+    corr("reset ctl=" + std::string(sc.ctl ? "1" : "0") + " comp=" + std::to_string(sc.comp), "ok");
     v.history = std::string("ctl=") + (sc.ctl ? "1" : "0") + " comp=" + std::to_string(sc.comp) + ": ";
     for (const auto &o : sc.ops) {
         if (o.first == "dg") {
@@ -581,7 +583,8 @@ static void part1(const Args &a, Rng &rng)
 {
     const bool thorough = a.tier == "thorough";
     const int comps[] = { 1, 2, 256 };
-    // ---- corpus: the minimized defect witnesses first
+    // ---- corpus: the minimized witnesses of the defect fixed by repo commit f41aa68 first (must stay inert)
+    sample("take-over witness (controlled component): creds; dg 8 req b 1000 abs uc=1 (no MESSAGE-INTEGRITY, unknown port); dg 8 rsp b <id of the triggered check> abs; send: ended in connected() to the stranger before repo commit f41aa68, must stay inert");
     for (int ctl = 0; ctl < 2; ctl++) {
         Scenario s; s.ctl = ctl; s.comp = 1;
         s.add(mk(8, "req", "abs", 1000, false, 'n', 12345));                    // idle component, no credentials: response + learned candidate
@@ -731,8 +734,9 @@ struct PairCase {
 
 static QList<QHostAddress> addrList(int n) { QList<QHostAddress> l; for (int i = 0; i < n; i++) l << QHostAddress(QStringLiteral("127.0.0.%1").arg(1 + i)); return l; }
 
-static void runPair(const PairCase &pc, Rng &rng, int deadlineMs)
+static bool runPairOnce(const PairCase &pc, Rng &rng, int deadlineMs, bool finalAttempt)
 {
+    bool timingMiss = false;
     drainAll();
     const std::string name = pc.str();
     printf("I %s\n", name.c_str()); fflush(stdout);
@@ -805,6 +809,7 @@ static void runPair(const PairCase &pc, Rng &rng, int deadlineMs)
         if (A.warns.contains(QStringLiteral("rc")) || B.warns.contains(QStringLiteral("rc"))) stat("role_conflict_warned");
     } else {
         if (both && A.sig == 1 && B.sig == 1) oraclePass()++;
+        else if (!finalAttempt && A.sig <= 1 && B.sig <= 1) timingMiss = true;   // judged only if it happens again on the immediate retry
         else oracleFail(pc.attack == 2 ? "C15:honest-pair-not-connected-under-no-mi-attack" : "C15:honest-pair-not-connected", name + " A=" + std::to_string(A.conn->isConnected()) + "/" + std::to_string(A.sig) + " B=" + std::to_string(B.conn->isConnected()) + "/" + std::to_string(B.sig));
     }
     // forged traffic (it carries some MESSAGE-INTEGRITY) never gets an answer
@@ -824,9 +829,10 @@ static void runPair(const PairCase &pc, Rng &rng, int deadlineMs)
             to.app.clear();
             const qint64 w = from.comp->sendDatagram(p);
             QElapsedTimer e2; e2.start();
-            while (to.app.isEmpty() && e2.elapsed() < 300) { pump(1); QThread::usleep(100); }
+            while (to.app.isEmpty() && e2.elapsed() < (finalAttempt ? 20000 : 5000)) { pump(1); QThread::usleep(100); }
             // with attack == 2 the "connected" peer may be the attacker (known finding): then the datagram goes astray
             if (w == p.size() && to.app.size() == 1 && to.app[0] == p) { oraclePass()++; stat("payload_bytes_echoed", p.size()); }
+            else if (!finalAttempt && w == p.size() && to.app.isEmpty()) timingMiss = true;   // nothing arrived in time: retried
             else oracleFail(pc.attack == 2 ? "C15:application-datagram-lost-under-no-mi-attack" : "C15:application-datagram-not-carried-unchanged", name + " size " + std::to_string(p.size()) + " delivered " + std::to_string(to.app.size()));
         }
         // a payload that is itself a well-formed STUN message is demultiplexed as STUN (RFC 5245 / 7983 by design): recorded only
@@ -840,6 +846,18 @@ static void runPair(const PairCase &pc, Rng &rng, int deadlineMs)
     A.conn->close(); B.conn->close();
     pump(2);
     drainAll();
+    return timingMiss;
+}
+
+// Real timers: on a heavily loaded machine a deadline can be missed without anything being wrong.  A missed deadline is
+// reported as a statistic and the same case is repeated at once with much longer deadlines; only if it misses again it is an
+// oracle failure.  (Safety expectations — forged traffic unanswered — do not depend on time and are judged on every attempt.)
+static void runPair(const PairCase &pc, Rng &rng, int deadlineMs)
+{
+    if (!runPairOnce(pc, rng, deadlineMs, false)) return;
+    stat("pair_deadline_missed_retried");
+    printf("X note: deadline missed once (machine load?), case repeated: %s\n", pc.str().c_str());
+    runPairOnce(pc, rng, 4 * deadlineMs, true);
 }
 
 static void part2(const Args &a, Rng &rng)
@@ -850,7 +868,7 @@ static void part2(const Args &a, Rng &rng)
     for (int roles = 0; roles < 2; roles++)
         for (int bfirst = 0; bfirst < 2; bfirst++) {
             PairCase pc; pc.ctlA = roles == 0; pc.ctlB = !pc.ctlA; pc.comp = comps[(roles + bfirst) % 3]; pc.bConnectsFirst = bfirst; pc.gap = true; pc.attack = bfirst;
-            runPair(pc, rng, 3000);
+            runPair(pc, rng, 10000);
         }
     // direct, lossless: all role assignments × candidate counts/orders × who starts × attack
     int n = 0;
@@ -864,11 +882,11 @@ static void part2(const Args &a, Rng &rng)
                         pc.comp = comps[n % 3]; pc.nAddrA = na; pc.nAddrB = nb; pc.reverseCands = rev; pc.bConnectsFirst = bfirst;
                         pc.attack = n % 3 == 2 ? 0 : 1;
                         pc.gap = (n / 2) % 2;
-                        runPair(pc, rng, 3000);
+                        runPair(pc, rng, 10000);
                         n++;
                     }
-    // known finding reproduced in the two-agent setting as well
-    { PairCase pc; pc.attack = 2; runPair(pc, rng, 3000); pc.ctlA = false; pc.ctlB = true; runPair(pc, rng, 3000); }
+    // integrity-less requests in the two-agent setting as well (was the known finding before repo commit f41aa68)
+    { PairCase pc; pc.attack = 2; runPair(pc, rng, 10000); pc.ctlA = false; pc.ctlB = true; runPair(pc, rng, 10000); }
     // loss of first transmissions (real retransmission timers: ~0.5 s each)
     std::vector<std::set<int>> subsets;
     for (int m = 0; m < 16; m++) { std::set<int> s; for (int k = 0; k < 4; k++) if (m & (1 << k)) s.insert(k); subsets.push_back(s); }
@@ -878,24 +896,9 @@ static void part2(const Args &a, Rng &rng)
         pc.drop = thorough ? subsets[i % 16] : subsets[(i == 0) ? 0 : 1 + rng.below(15)];
         pc.ctlA = thorough ? (i < 16) : rng.coin(); pc.ctlB = !pc.ctlA;
         pc.comp = comps[i % 3]; pc.attack = i % 2; pc.bConnectsFirst = rng.coin(); pc.gap = rng.coin();
-        runPair(pc, rng, 5000);
+        runPair(pc, rng, 15000);
         stat("loss_cases");
     }
-}
-
-// does this build of the library drop peer messages without MESSAGE-INTEGRITY?  (decides which model variant is the reference;
-// the oracle does not depend on it)
-static void detectFix(Rng &rng)
-{
-    Agent v(false, 1, { QHostAddress(LOOP) });
-    Creds c; c.localUser = v.conn->localUser(); c.localPw = v.conn->localPassword();
-    QList<QByteArray> none;
-    gSock[3]->writeDatagram(forge(mk(9, "req", "abs", 1), c, none, QHostAddress(LOOP), v.port(), rng), QHostAddress(LOOP), v.port());
-    QElapsedTimer el; el.start();
-    while (el.elapsed() < 30) { pump(1); QThread::usleep(100); }
-    // unchanged tree: a Binding success response comes back; repaired tree: nothing but the "missing MESSAGE-INTEGRITY" warning
-    gFix = (!gSock[3]->hasPendingDatagrams() && v.warns.contains(QStringLiteral("nomi"))) ? 1 : 0;
-    drainAll();
 }
 
 int main(int argc, char **argv)
@@ -905,8 +908,6 @@ int main(int argc, char **argv)
     for (int i = 0; i < 4; i++) { gSock[i] = new QUdpSocket; if (!gSock[i]->bind(QHostAddress(LOOP), 0)) { fprintf(stderr, "cannot bind\n"); return 3; } }
     gMarker = new QUdpSocket; gMarker->bind(QHostAddress(LOOP), 0);
     Rng rng(a.seed);
-    detectFix(rng);
-    stat("library_requires_mi", gFix);
     QElapsedTimer el; el.start();
     if (a.mode != "pairs") part1(a, rng);
     stat("part1_ms", el.elapsed());
